@@ -215,6 +215,7 @@ Inductive lop :=
 | LQuit (i : nat)             (* POP3: send QUIT, read the reply, do not wait for the connection to close *)
 | LEnd (i : nat)              (* wait for the server to close the connection, look at the mailbox *)
 | LAcceptHold (i : nat) (p : proto)   (* connect while the serve goroutine is held between the kernel's accept and wg.Add *)
+| LBusy (i : nat)             (* the client keeps session i busy (NOOP after NOOP) for a while *)
 | LPlain                      (* a client that fails the TLS handshake of a ForceTLS POP3 server *)
 | LGate                       (* the store's RemoveMessage now blocks … *)
 | LUngate.                    (* … until here *)
@@ -374,6 +375,16 @@ Definition lstep (w : world) (o : lop) : world * lobs :=
       match wrun w PPop3 [Accept i; Begin i; Abort i; Exit i] with
       | Some w' => (w', XDropped)
       | None => (w, XRefused)
+      end
+  | LBusy i =>
+      (* NOOPs change nothing; the session answers each of them *)
+      match where_is w i with
+      | Some p =>
+          match find_s i (ss (srv_of w p)) with
+          | Some s => if running (ph s) then (w, match p with PSmtp => XCode 250 | PPop3 => XOk end) else (w, XQ)
+          | None => (w, XQ)
+          end
+      | None => (w, XQ)
       end
   | LGate => (mkW (wc w) (ws w) (wp w) true (wpend w), XDot)
   | LUngate =>
@@ -546,6 +557,14 @@ Fixpoint loracle_go (all : list lop) (k : nat) (ops : list lop) (os : list lobs)
           | LPlain =>
               if down then (if lobs_eqb x XRefused then next down bs else (LVAcceptedAfterShutdown k, os'))
               else if lobs_eqb x XDropped then next down bs else (LVSessionDisturbed k, os')
+          | LBusy i =>
+              match find_b i bs with
+              | Some b => if b_open b then
+                            (if lobs_eqb x (match b_pr b with PSmtp => XCode 250 | PPop3 => XOk end) then next down bs
+                             else (LVSessionDisturbed k, os'))
+                          else next down bs
+              | None => next down bs
+              end
           | LGate | LUngate => next down bs
           | LDrain p =>
               if negb down then next down bs   (* Drain is only promised anything after shutdown was requested *)
